@@ -70,10 +70,16 @@ where
 
   fn parse_event(data: &str) -> Result<T, EventStreamError> {
     let mut de = serde_json::Deserializer::from_str(data);
-    serde_path_to_error::deserialize(&mut de).map_err(|err| EventStreamError::JsonDeserialize {
+    let value = serde_path_to_error::deserialize(&mut de).map_err(|err| EventStreamError::JsonDeserialize {
       path: err.path().to_string(),
       inner: err.into_inner(),
-    })
+    })?;
+    // like `serde_json::from_str`: anything but white space after the value makes the event's data invalid
+    de.end().map_err(|inner| EventStreamError::JsonDeserialize {
+      path: ".".to_string(),
+      inner,
+    })?;
+    Ok(value)
   }
 }
 
